@@ -43,7 +43,8 @@ META = dict(
                  "the clock is read once at the start of an iteration and once after each _tcp_send",
                  "each BoboDeviceManager accessor is atomic (RLock)"])
 
-CONFIGS = [(30, 60, 5, 5, 10), (20, 50, 4, 7, 11), (8, 10, 3, 6, 2), (40, 25, 6, 3, 9), (5, 9, 0, 2, 1)]
+CONFIGS = [(30, 60, 5, 5, 10), (20, 50, 4, 7, 11), (8, 10, 3, 6, 2), (40, 25, 6, 3, 9), (5, 9, 0, 2, 1),
+           (30, 60, 10, 3, 10), (12, 40, 7, 2, 5)]          # a ping may fall due before the backlog retry does
 PROBE_CFG = (20, 50, 4, 7, 11)
 NOW = 1000
 SNAP = [[6], [7], [8, 9]]
